@@ -140,7 +140,7 @@ def geometry(env, nx, ny):
 
 
 @job("c04.drag", ("C04",), cfgs=[dict(nx=2, ny=2), dict(nx=2, ny=2, k_lam=0.0), dict(nx=2, ny=2, k_lam=1.0), dict(nx=2, ny=3, _tier=T)], cost=30,
-     ranges=[(r"re", 1e5, 1e6), (r"Mach", 0.8, 0.9), (r"t_over_c", 0.05, 0.2), (r"cos_sweep|widths|lengths|chords", 0.7, 1.3),
+     ranges=[(r"^re", 1e5, 1e6), (r"Mach", 0.8, 0.9), (r"t_over_c", 0.05, 0.2), (r"cos_sweep|widths|lengths|chords", 0.7, 1.3),
              (r"S_ref", 2.0, 4.0), (r"CL", 0.3, 0.6)])
 def drag(env, nx, ny, k_lam=0.05):
     """viscous and wave drag coefficients of the half model vs the full model, inputs related by mirror extension (the
